@@ -7,6 +7,7 @@ mod util;
 mod srv;
 mod e_subs;
 mod e_revise;
+mod e_filter;
 
 use serde_json::Value;
 use std::io::{BufRead, BufReader, BufWriter, Write};
@@ -17,6 +18,7 @@ fn run_case(engine: &str, case: &Value, out: &mut Obs) {
     match engine {
         "subs" => e_subs::run_case(case, out),
         "revise" => e_revise::run_case(case, out),
+        "filter" => e_filter::run_case(case, out),
         _ => {
             eprintln!("unknown engine {}", engine);
             std::process::exit(2);
